@@ -41,7 +41,11 @@ def named_adf(e, tabs, n):
 
 def sval(x):
     x = unguard(x)
-    return x.s if isinstance(x, StrBuf) else x
+    if isinstance(x, StrBuf): x = x.s
+    if hasattr(x, 'bytes') and hasattr(x, 'start'):      # a slice of a submitted text (models_nom.SymStr)
+        bs = x.bytes()
+        if not any(is_sym(b) for b in bs): return bytes(bs).decode()
+    return x
 
 
 def read_graph(e, g):
@@ -214,6 +218,9 @@ def judge_native_graph(out, case):
 
 def replay(ctx, v):
     case = v['case']
+    if 'handler' in case:
+        from . import c16h
+        return c16h.replay(ctx, v)
     if v['kind'] == 'db-roundtrip' or 'final' in case:
         out = native(ctx).call(dict(case, cmd='db_roundtrip'), timeout=30)
         if 'after' not in out: return 'reproduced', out
@@ -231,12 +238,21 @@ def replay(ctx, v):
     return ('reproduced', {'problems': probs[:5], 'native_output': out}) if probs else ('not-reproduced', out)
 
 def key(v):
-    c = v['case']; return '%s:%s' % (v['kind'], json.dumps([c['n'], c['tabs'], c.get('which'), c.get('final'), c.get('history'), c.get('vars_only')]))
+    c = v['case']
+    if 'handler' in c:
+        from . import c16h
+        return c16h.key(v)
+    return '%s:%s' % (v['kind'], json.dumps([c['n'], c['tabs'], c.get('which'), c.get('final'), c.get('history'), c.get('vars_only')]))
 
 
 def engine_key(ctx):
-    return ctx.engine_multi('server', [('adf_bdd', '--lib', build.DEFAULT_FEATURES), ('adf-bdd-server', '--bin adf-bdd-server', ())],
-                            src_globs=('lib/src/**/*.rs', 'server/src/**/*.rs'))
+    k = ctx.engine_multi('server', [('adf_bdd', '--lib', build.DEFAULT_FEATURES), ('adf-bdd-server', '--bin adf-bdd-server', ())],
+                         src_globs=('lib/src/**/*.rs', 'server/src/**/*.rs'))
+    eng = ctx.engines[k]
+    if not getattr(eng, '_nom_models', False):
+        from mirse import models_nom
+        models_nom.install(eng); eng._nom_models = True        # the handler closures parse the submitted text
+    return k
 
 
 def validate(ctx, tier, seed):
@@ -277,7 +293,9 @@ def validate(ctx, tier, seed):
         if got != out2.get('after') or stored['ac'] != out2.get('stored', {}).get('ac'):
             mism.append('db round trip %s: native %s / mirse %s %s' % (json.dumps(case2), str(out2)[:300], got, stored))
         cnt += 1
-    return cnt, mism
+    from . import c16h
+    c2, m2 = c16h.validate(ctx, eng, nat, tier, seed)
+    return cnt + c2, mism + m2
 
 
 def spec(ctx, tier, seed):
@@ -296,6 +314,8 @@ def spec(ctx, tier, seed):
         jobs.append(Job('graph-n3-%d-%s' % (i, which), mod, 'graph_job', {'n': 3, 'fam': fam, 'which': which}, engine_key=k, stop_after_violations=40))
         jobs.append(Job('graph-n3-%d-complete' % i, mod, 'graph_job', {'n': 3, 'fam': fam, 'which': 'complete'}, engine_key=k, stop_after_violations=40))
         jobs.append(Job('db-n3-%d' % i, mod, 'db_job', {'n': 3, 'fam': fam, 'final': STRATEGIES[i % 6], 'history': []}, engine_key=k, stop_after_violations=40))
+    from . import c16h
+    jobs += c16h.jobs(k, tier, rng)
     jobs.append(Job('canary', mod, 'graph_job', {'n': 2, 'fam': ['sym', 'sym'], 'which': 'none', 'canary': True}, engine_key=k, stop_after_violations=1, canary=True))
     return {'jobs': jobs, 'level': 'model_checking', 'allowed_status': ('ok', 'panic', 'bound'),
             'assumptions': ASSUMPTIONS + ['Arc/RwLock are single-threaded cells', 'usize::to_string / str::parse are exact on concrete numbers',
